@@ -188,7 +188,7 @@ def pwd_doubles_quotes():
 
 def make_directory_stops_at_dotdot(tree):
     """the test of the `while` loop of `Client.make_directory`: True when it also stops at a `..` component
-    (`path.name != '..'`), False for the plain `path.name and not await self.exists(path)`; any other shape raises"""
+    (`path.name != '..'`), False for the plain `path.name and not await self.exists(path)` and for any other shape"""
     for n in ast.walk(tree):
         if isinstance(n, ast.AsyncFunctionDef) and n.name == "make_directory":
             loops = [x for x in ast.walk(n) if isinstance(x, ast.While)]
@@ -199,8 +199,8 @@ def make_directory_stops_at_dotdot(tree):
                 return False
             if t == "path.name and path.name != '..' and (not await self.exists(path))":
                 return True
-            raise RuntimeError("Client.make_directory: unrecognised loop test %r" % t)
-    raise RuntimeError("Client.make_directory: loop not found")
+            return False  # a shape the translator does not know: the value under which C09's fact does not check
+    return False
 
 
 def gen_client():
